@@ -295,6 +295,26 @@ func c18Requests(thorough bool) map[string][]rreq {
 			}
 		}
 	}
+	// windows that reach below step / counter 0: the library's TOTP window wraps modulo 2^64 (the code of counter
+	// 2^64-1 is in the window of step 0 with skew 1), its HOTP window is cut at 0 - the service must give the
+	// library's verdict for each, whatever it makes of that
+	for _, ts := range []int{1, 10, 29, 30, 31, 59, 60, 299} {
+		for _, sk := range []int{1, 2, 10} {
+			for _, per := range []int{30, 1, 60} {
+				st := int64(ref.Step(int64(ts), uint64(per)))
+				for _, dist := range []int64{-int64(sk) - 1, -int64(sk), -1, 0, 1, int64(sk), int64(sk) + 1} {
+					tv = append(tv, rreq{Method: "POST", Path: "/totp/validate", Fields: map[string]any{"secret": u, "timestamp": ts, "period": per, "skew": sk, "code": ref.HOTP(restKey, uint64(st+dist), 6, 0)}})
+				}
+			}
+		}
+	}
+	for _, c := range []uint64{0, 1, 2, 9} {
+		for _, sk := range []int{1, 2, 10} {
+			for _, dist := range []int64{-int64(sk) - 1, -int64(sk), -1, 0, int64(sk)} {
+				hv = append(hv, rreq{Method: "POST", Path: "/hotp/validate", Fields: map[string]any{"secret": u, "counter": c, "skew": sk, "code": ref.HOTP(restKey, uint64(int64(c)+dist), 6, 0)}})
+			}
+		}
+	}
 	// the right code with white space around it is NOT the code: the verdict must be the library's (false)
 	for _, deco := range []func(string) string{func(c string) string { return " " + c }, func(c string) string { return c + "\n" }, func(c string) string { return c + "\u00a0" }, func(c string) string { return "\t" + c + " " }, func(c string) string { return c[:len(c)-1] + " " }} {
 		for _, d := range []string{"6", "8", "10"} {
@@ -541,6 +561,9 @@ func (s *liveServer) do(cl *http.Client, q rreq) (restResp, error) {
 	}
 	if body != nil {
 		req.Header.Set("Content-Type", "application/json")
+	}
+	for k, v := range q.Headers {
+		req.Header.Set(k, v)
 	}
 	resp, err := cl.Do(req)
 	if err != nil {
